@@ -45,6 +45,7 @@ class FnSpec:
         self.nobody = False     # replace body by unimplemented!() (with external_body)
         self.r12 = False        # R12: inline Result combinators (and_then / map / map_err)
         self.mutself = False    # R10: `mut self` receiver -> `self` + `let mut self_ = self;` + rename in body
+        self.mutparam = None    # R10 for a by-value `mut NAME: T` parameter (same rewrite with NAME)
         self.line = 0
 
 
@@ -165,6 +166,8 @@ def parse_spec(path):
                     f.ret = v
                 elif k == "mutself":
                     f.mutself = True
+                elif k == "mutparam":
+                    f.mutparam = v
                 elif k == "r12":
                     f.r12 = True
                 elif k == "r12opt":
@@ -784,11 +787,12 @@ class Gen:
         for (rule, a, b) in rewrites:
             if a in sig:
                 sig = sig.replace(a, b)
-        mutself = bool(fs and fs.mutself)
+        mutself = bool(fs and (fs.mutself or fs.mutparam))
+        mp = ("self" if fs.mutself else fs.mutparam) if mutself else None
         if mutself:
-            if not re.search(r"\(\s*mut\s+self\b", sig):
-                raise ExtractError("lost anchor: %s has no `mut self` receiver (R10)" % qual)
-            sig = re.sub(r"\(\s*mut\s+self\b", "(self", sig, count=1)
+            if not re.search(r"[(,]\s*mut\s+%s\b" % mp, sig):
+                raise ExtractError("lost anchor: %s has no `mut %s` parameter (R10)" % (qual, mp))
+            sig = re.sub(r"([(,]\s*)mut\s+%s\b" % mp, r"\g<1>%s" % mp, sig, count=1)
             self.rule_uses.append(("R10", qual))
         # R8 named return
         ret = fs.ret if fs else "r"
@@ -868,13 +872,13 @@ class Gen:
             bt = lex(body)
             outb, prev = [], 0
             for t in bt:
-                if t.kind == "ident" and t.text == "self":
-                    outb.append(body[prev:t.start] + "self_")
+                if t.kind == "ident" and t.text == mp:
+                    outb.append(body[prev:t.start] + mp + "_")
                     prev = t.end
             outb.append(body[prev:])
             body = "".join(outb)
             assert body.startswith("{")
-            body = "{ let mut self_ = self;" + body[1:]
+            body = "{ let mut %s_ = %s;" % (mp, mp) + body[1:]
         # from here on: tokens of the (possibly desugared) body text, positions relative to it
         toks = lex(body)
         pair = match_delims(toks)
@@ -996,7 +1000,7 @@ class Gen:
         exp = expected_tokens(src_fn_text, rewrites, True)
         rule = ("R7:" + ",".join(c["text"].strip().split()[0] for c in desug)) if desug else ("R8" if has_ens else None)
         if mutself:
-            rule = "R10|" + (rule or "")
+            rule = "R10:%s|" % mp + (rule or "")
         self.items_check.append((qual, start, len(self.out), exp, rule))
         # hints inherit the function's tags
         for cid in clause_ids:
@@ -1443,18 +1447,19 @@ def identity_check(g):
         lines = g.out[s - 1:e]
         kept = [l for l in lines if not l.rstrip().endswith("//@g") and not l.startswith("//@item-")]
         tt = strip_vis(tok_texts("\n".join(kept)))
-        if rule and rule.startswith("R10|"):
-            rule = rule[4:] or None
-            pro = ["let", "mut", "self_", "=", "self", ";"]
+        if rule and rule.startswith("R10:"):
+            mp, _, rule = rule[4:].partition("|")
+            rule = rule or None
+            pro = ["let", "mut", mp + "_", "=", mp, ";"]
             for i in range(len(tt) - len(pro)):
                 if tt[i:i + len(pro)] == pro:
                     tt = tt[:i] + tt[i + len(pro):]
                     break
             else:
                 raise ExtractError("R10 inverse: prologue not found in %s" % iid)
-            tt = ["self" if t == "self_" else t for t in tt]
+            tt = [mp if t == mp + "_" else t for t in tt]
             for i in range(len(tt) - 1):
-                if tt[i] == "(" and tt[i + 1] == "self":
+                if tt[i] in ("(", ",") and tt[i + 1] == mp and (mp == "self" or tt[i + 2] == ":"):
                     tt = tt[:i + 1] + ["mut"] + tt[i + 1:]
                     break
         if rule == "R2":
